@@ -1,5 +1,4 @@
 import AgModel.Props.C01
-import AgModel.Props.C01Cluster
 import AgModel.Props.C02
 import AgModel.Props.C03
 import AgModel.Props.C03Pool
